@@ -44,6 +44,8 @@ class Pattern(HostObj):
         self.p = p
 
     def a_search(self, I, s, *a):
+        if isinstance(s, Rope) and not a:
+            return prefix_class_search(I, self.p.pattern, s)
         _conc(s)
         return wrapm(self.p.search(s, *a))
 
@@ -72,6 +74,77 @@ class Pattern(HostObj):
     def a_sub(self, I, repl, s, *a):
         _conc(s, repl)
         return self.p.sub(repl, s, *a)
+
+
+class RopeMatch(HostObj):
+    def __init__(self, groups):
+        self.groups = groups
+
+    def a_group(self, I, k=0):
+        return self.groups[k]
+
+    def a_groups(self, I):
+        return tuple(self.groups[1:])
+
+
+def _rope_or_str(parts):
+    parts = [p for p in parts if p != '']
+    if all(isinstance(p, str) for p in parts):
+        return ''.join(parts)
+    return Rope(parts)
+
+
+def prefix_class_search(I, pattern, rope):
+    """search() of a pattern of the shape `(<character class>*)(.*)` in a symbolic text: the pattern matches at position 0 (both
+    groups may be empty); group 1 is the longest prefix made of characters of the class, group 2 the rest of the line.  A numeral
+    piece belongs to the prefix iff every character a numeral can contain (digits, '.', '-') is in the class."""
+    import sre_parse
+    from .builtins_ import FMT_ALPHABET
+    try:
+        parsed = list(sre_parse.parse(pattern))
+    except Exception:
+        raise Unsupported('regular expression on symbolic text')
+    ok = len(parsed) == 2 and all(str(op) == 'SUBPATTERN' for op, av in parsed)
+    if ok:
+        g1, g2 = list(parsed[0][1][3]), list(parsed[1][1][3])
+        ok = len(g1) == 1 and str(g1[0][0]) == 'MAX_REPEAT' and g1[0][1][0] == 0 and str(g1[0][1][1]) == 'MAXREPEAT' \
+            and len(g1[0][1][2]) == 1 and str(g1[0][1][2][0][0]) == 'IN'
+        ok = ok and len(g2) == 1 and str(g2[0][0]) == 'MAX_REPEAT' and g2[0][1][0] == 0 and len(g2[0][1][2]) == 1 \
+            and str(g2[0][1][2][0][0]) == 'ANY'
+    if not ok:
+        raise Unsupported('regular expression on symbolic text')
+    cls = set()
+    for op, av in g1[0][1][2][0][1]:
+        if str(op) == 'LITERAL':
+            cls.add(chr(av))
+        elif str(op) == 'RANGE':
+            cls.update(chr(c) for c in range(av[0], av[1] + 1))
+        else:
+            raise Unsupported('regular expression on symbolic text')
+    if any(not isinstance(p, str) and p.kind not in ('f', 'exact') for p in rope.parts):
+        raise Unsupported('regular expression on opaque text')
+    if not FMT_ALPHABET <= cls and FMT_ALPHABET & cls:
+        raise Unsupported('character class cuts through the numeral alphabet')
+    head, rest = [], None
+    parts = list(rope.parts)
+    for k, p in enumerate(parts):
+        if isinstance(p, str):
+            n = 0
+            while n < len(p) and p[n] in cls:
+                n += 1
+            head.append(p[:n])
+            if n < len(p):
+                rest = [p[n:]] + parts[k + 1:]
+                break
+        elif FMT_ALPHABET <= cls:
+            head.append(p)
+        else:
+            rest = parts[k:]
+            break
+    rest = rest or []
+    if any(isinstance(p, str) and '\n' in p for p in rest):
+        raise Unsupported('regular expression over several lines of symbolic text')
+    return RopeMatch([rope, _rope_or_str(head), _rope_or_str(rest)])
 
 
 def rope_split(I, pattern, rope):
